@@ -28,6 +28,8 @@ struct vf_config {
 	int script_len;
 	int fail_malloc_at;   /* fail the k-th (1-based) malloc performed by nsync code; 0 = never */
 	int fail_malloc_from; /* fail EVERY malloc from the k-th on (a persistent shortage); 0 = never */
+	int fail_ctor_at;     /* fail the k-th allocation that is NOT one of the library's unchecked ones (waiter pool, nsync_wait_n): the constructors'; 0 = never */
+	int thread_exit;      /* run the per-thread waiter's destructor when a fiber ends (a pthread key destructor: the waiter goes to the free pool) */
 	int futex_fault_prob; /* per-mille probability of an early futex return (futex build) */
 };
 
@@ -35,6 +37,7 @@ void vf_init (const struct vf_config *cfg);
 int vf_spawn (void (*fn) (void *), void *arg);
 int vf_run (void);                 /* returns enum vf_outcome */
 int vf_self (void);
+int vf_retry_loads (int k); void vf_retry_loads_reset (void); /* loads fiber k has done in mu_try_acquire_after_timeout_or_cancel */
 int vf_sem_value (nsync_semaphore *s); /* current count of a semaphore (abstract or futex build) */
 void vf_log_alias (int tid); /* > 0: log the current fiber's events under this thread id until reset with 0 */
 int64_t vf_now (void);             /* virtual ns */
